@@ -308,19 +308,20 @@ def isDigit (c : Char) : Bool := decide ('0' ≤ c) && decide (c ≤ '9')
 /-- value of a digit string -/
 def digitsVal (ds : List Char) : Nat := ds.foldl (fun a c => a * 10 + (c.toNat - 48)) 0
 
+/-- the optional sign of `%d`: `(negative, rest)` -/
+def signSplit (s : List Char) : Bool × List Char :=
+  match s with
+  | c :: t => if c == '-' then (true, t) else if c == '+' then (false, t) else (false, c :: t)
+  | [] => (false, [])
+
 /-- `fscanf(file, "%d", &v)` / `sscanf(buffer, "%d", &v)`: skip white space, optional sign, at least one digit;
     `none` is "did not return 1" (matching failure or end of input).  The value is not reduced to 32 bits: the
     harness refuses inputs with a run of 10 or more digits. -/
 def scanInt (s : List Char) : Option (Int × List Char) :=
-  let s := s.dropWhile isSpace
-  let (neg, s) : Bool × List Char :=
-    match s with
-    | '-' :: t => (true, t)
-    | '+' :: t => (false, t)
-    | _ => (false, s)
-  let ds := s.takeWhile isDigit
+  let p := signSplit (s.dropWhile isSpace)
+  let ds := p.2.takeWhile isDigit
   if ds.isEmpty then none
-  else some (if neg then -(digitsVal ds : Int) else (digitsVal ds : Int), s.dropWhile isDigit)
+  else some (if p.1 then -(digitsVal ds : Int) else (digitsVal ds : Int), p.2.dropWhile isDigit)
 
 /-- `fgets(buffer, n + 1, file)`: at most `n` characters, stopping after a newline: `(line, rest)` -/
 def fgetsGo : Nat → List Char → List Char × List Char
